@@ -9,21 +9,20 @@ Local Open Scope Z_scope.
    operators, staker rows, lists untouched except for the share clearing of emptied pools; nothing increases;
    the stored execution record lists exactly the observed reductions; a recorded identifier or a failed call
    changes nothing) holds of the model of Slash / SlashWithInfractionReason / dogfood SlashWithInfractionReason
-   for EVERY state, environment (heights, prices, decimals) and call.  [call_quirk_free] excludes exactly the
-   configuration of the known finding (infraction in the current block + undelegation started in it). *)
+   for EVERY state, environment (heights, prices, decimals) and call, including an infraction in the current block
+   (repaired: SlashAssets now walks the undelegations when SlashEventHeight <= BlockHeight). *)
 Theorem C04_step_meets_statement : forall s e c,
-  st_nonneg s = true -> env_sane e = true -> call_quirk_free s e c = true ->
+  st_nonneg s = true -> env_sane e = true ->
   step_ok s e c (fst (step s e c)) (snd (step s e c)) = true.
 Proof. exact step_meets_statement. Qed.
 Print Assumptions C04_step_meets_statement.
 
 (* ... and over whole histories: from any non-negative ledger, along any run of calls whose environments are sane
-   (positive prices, non-negative decimals) and that avoids the known-finding configuration, the statement holds at every
-   step (non-negativity of the ledger is preserved by every call: C04_nonneg_preserved) *)
+   (positive prices, non-negative decimals), the statement holds at every step (non-negativity of the ledger is preserved by every call: C04_nonneg_preserved) *)
 Fixpoint hist_wf (s : st) (h : list (env * call)) : bool :=
   match h with
   | [] => true
-  | (e, c) :: t => env_sane e && call_quirk_free s e c && hist_wf (fst (step s e c)) t
+  | (e, c) :: t => env_sane e && hist_wf (fst (step s e c)) t
   end.
 Fixpoint all_steps_ok (s : st) (h : list (env * call)) : bool :=
   match h with
@@ -38,7 +37,7 @@ Print Assumptions C04_nonneg_preserved.
 Theorem C04_run_meets_statement : forall h s, st_nonneg s = true -> hist_wf s h = true -> all_steps_ok s h = true.
 Proof.
   induction h as [|[e c] t IH]; intros s Hnn H; simpl in *; [reflexivity|].
-  apply andb_prop in H. destruct H as [H Ht]. apply andb_prop in H. destruct H as [H1 H2].
+  apply andb_prop in H. destruct H as [H1 Ht].
   rewrite step_meets_statement by assumption. apply IH; [apply step_nonneg; assumption|assumption].
 Qed.
 Print Assumptions C04_run_meets_statement.
@@ -93,7 +92,7 @@ Definition ex_call (event : Z) := CSlash (mkPrm 0 1 (SidRaw 42) true 100 1 0 eve
 
 (* hypotheses of the main theorem are satisfiable, the slash executes and changes the state *)
 Example C04_witness_executes :
-  st_nonneg ex_state = true /\ env_sane (ex_env 12) = true /\ call_quirk_free ex_state (ex_env 12) (ex_call 10) = true /\
+  st_nonneg ex_state = true /\ env_sane (ex_env 12) = true /\
   snd (step ex_state (ex_env 12) (ex_call 10)) = ROk /\
   st_eqb ex_state (fst (step ex_state (ex_env 12) (ex_call 10))) = false /\
   step_ok ex_state (ex_env 12) (ex_call 10) (fst (step ex_state (ex_env 12) (ex_call 10))) ROk = true.
@@ -113,13 +112,15 @@ Example C04_witness_full_slash :
   List.length (s_slists s') = 1%nat /\ map u_actual (s_recs s') = [30; 0; 5].
 Proof. vm_compute. repeat split; reflexivity. Qed.
 
-(* the known finding: infraction in the current block, an undelegation started in it is not slashed,
-   so the statement is false of the faithful model (and of the code, see the directed scenario) *)
-Theorem C04_same_block_undelegation_refuted : exists s e c,
-  st_nonneg s = true /\ env_sane e = true /\ snd (step s e c) = ROk /\
-  step_ok s e c (fst (step s e c)) (snd (step s e c)) = false.
-Proof. exists ex_state, (ex_env 10), (ex_call 10). vm_compute. repeat split; reflexivity. Qed.
-Print Assumptions C04_same_block_undelegation_refuted.
+(* regression for the repaired defect (SlashAssets used `SlashEventHeight < BlockHeight`): infraction in the current block,
+   the undelegation started in that block (record 2, height 10) is slashed like every other at-risk record, the one started
+   before (record 1, height 8) is not, and the statement holds. This was the witness of the former refutation. *)
+Example C04_same_block_undelegation_regression :
+  let s' := fst (step ex_state (ex_env 10) (ex_call 10)) in
+  st_nonneg ex_state = true /\ env_sane (ex_env 10) = true /\ snd (step ex_state (ex_env 10) (ex_call 10)) = ROk /\
+  map u_actual (s_recs s') = [30; 15; 5] /\
+  step_ok ex_state (ex_env 10) (ex_call 10) s' ROk = true.
+Proof. vm_compute. repeat split; reflexivity. Qed.
 
 (* observation for C11: operator value zero -> LegacyDec.Quo divides by zero *)
 Example C04_zero_value_panics :
